@@ -59,3 +59,6 @@ Example C15_model_example :
   | AOk ix => slop_freqs ix [1;2;3] 3 = AOk [2;2;4;0;0] /\ slop_freqs ix [1;2] 2 = AOk [1;1;2;1;0]
   | _ => False end.
 Proof. vm_compute. split; reflexivity. Qed.
+
+(* Assumptions of the remaining named statements of this file (the gate requires one per statement). *)
+Print Assumptions C15_exact_match_refuted.
